@@ -551,6 +551,8 @@ func (eng *Engine) runInventories(names []string) []*Obligation {
 			out = append(out, eng.inventoryPredefined()...)
 		case "global-writes":
 			out = append(out, eng.inventoryGlobalWrites()...)
+		case "scope-discipline":
+			out = append(out, eng.inventoryScopeDiscipline()...)
 		}
 	}
 	return out
